@@ -153,6 +153,9 @@ type worldOpts struct {
 	// consumeGate, when set, delays the consumer of every output channel: like the server, which fetches a target
 	// channel (GetMsgChan) some time after packs started to arrive, it only asks for the channel once the gate is closed.
 	consumeGate chan struct{}
+	// eventGate, when set, holds the consumer of the API event channel until the gate is closed (the server's event loop
+	// handles one event at a time and each can take seconds of downstream retries, so the 10-slot channel does fill up).
+	eventGate chan struct{}
 }
 
 func newWorld(o worldOpts) *world {
@@ -184,6 +187,13 @@ func newWorld(o worldOpts) *world {
 	w.wg.Add(1)
 	go func() {
 		defer w.wg.Done()
+		if o.eventGate != nil {
+			select {
+			case <-w.ctx.Done():
+				return
+			case <-o.eventGate:
+			}
+		}
 		for {
 			select {
 			case <-w.ctx.Done():
